@@ -104,12 +104,14 @@ theorem cube_roundtrip (f : Fld) : (cube f.impl).RT := (Ty.cube f).rt
 /-- `ByteDigest<N>` (Blake3, SHA3) and the `ElementDigest` of Rp64_256 / RpJive64_256 -/
 theorem byteDigest_roundtrip (n : Nat) : (byteDigest n).RT := byteDigest_RT n
 theorem elemDigest64_roundtrip : elemDigest64.RT := elemDigest64_RT
+/-- the 248-bit `ElementDigest` of Rp62_248: four 62-bit integers packed into 31 bytes -/
+theorem elemDigest62_roundtrip : elemDigest62.RT := elemDigest62_RT
 
 -- ------------------------------------------------------------------------------------------------
 -- every serializable type, nested compositions included
 
 /-- C12 for the whole universe `Ty` of serializable types (integers, usize, bool, String, Option, Vec, arrays,
-    tuples, BTreeMap / BTreeSet over ordered keys, base / quadratic / cubic field elements, digests,
+    tuples, BTreeMap / BTreeSet over ordered keys, base / quadratic / cubic field elements, digests (ByteDigest, both ElementDigests),
     FieldExtension, ProofOptions, TraceInfo, Context, Commitments, Queries, OodFrame, FriProofLayer, FriProof,
     Proof) and all their nestings: every value the constructors accept is encoded without a panic and decodes
     to an equal value, consuming exactly the written bytes, whatever follows. -/
